@@ -59,6 +59,7 @@ pub fn from_program(p: &Program) -> Option<Vec<u8>> {
         Some(match o {
             Op::C => C,
             Op::CD => CD,
+            Op::C0 => C,
             Op::A => A,
             Op::AN => AN,
             Op::M => M,
